@@ -154,37 +154,26 @@ Theorem C05_append_adds_one_row :
 Proof. exact append_ok. Qed.
 Print Assumptions C05_append_adds_one_row.
 
-(* Full statement: for every record (any mapping) appended to a schema-bound frame, the append succeeds
-   exactly when the record conforms (and its row can be sized), and the row stored is the record's values
-   in column order, which conforms to the schema.
-   Proved with the guard "the entry is a dict": for a MutableMapping that is not a dict the conclusion is
-   false (C05_mapping_refuted, finding F-C05-2). *)
-Theorem C05_append_accepts_iff_partial :
+(* Every entry appended to a schema-bound frame: the append succeeds exactly when the entry is a record (a dict
+   or any other mapping) that conforms to the schema and whose row can be sized; a non-mapping raises TypeError. *)
+Theorem C05_append_accepts_iff :
   forall (f : frame) (s : schema) (e : entry),
-  fk f = FSchema s -> ekind_of e = KDict ->
-  (snd (append f e) = AOk <-> conforms s (eitems e) /\ sizable (names s) (eitems e)).
-Proof. exact append_accepts_iff. Qed.
-Print Assumptions C05_append_accepts_iff_partial.
+  fk f = FSchema s ->
+  (snd (append f e) = AOk <-> is_mapping e = true /\ conforms s (eitems e) /\ sizable (names s) (eitems e)) /\
+  (is_mapping e = false -> snd (append f e) = ARaise (AExn TypeError)).
+Proof. exact append_accepts_iff_all. Qed.
+Print Assumptions C05_append_accepts_iff.
 
-Theorem C05_append_stores_values_in_column_order_partial :
+(* The row stored for an accepted record (dict or other mapping, F-C05-2 fixed by 4269430) is the record's values
+   in column order; it conforms to the frame's schema, and on a schema-bound frame the record conforms. *)
+Theorem C05_append_stores_values_in_column_order :
   forall (f : frame) (e : entry),
-  ekind_of e = KDict -> snd (append f e) = AOk ->
+  is_mapping e = true -> snd (append f e) = AOk ->
   built (fk f) e = extract (fields (fk f)) (eitems e) /\
   row_conforms (frame_schema (fk f)) (built (fk f) e) /\
   (forall s, fk f = FSchema s -> conforms s (eitems e)).
-Proof. exact append_dict_row. Qed.
-Print Assumptions C05_append_stores_values_in_column_order_partial.
-
-Theorem C05_mapping_refuted :
-  exists (s : schema) (e : entry),
-    name_of type_names 6%N = "INTEGER"%string /\
-    s = [mkcol 0%N (Some 6%N) true] /\
-    ekind_of e = KMapping /\ conforms s (eitems e) /\ sizable (names s) (eitems e) /\
-    snd (append (init_frame (IRows s [])) e) = AOk /\
-    frows (fst (append (init_frame (IRows s [])) e)) <> [extract (names s) (eitems e)] /\
-    ~ Forall (row_conforms s) (frows (fst (append (init_frame (IRows s [])) e))).
-Proof. exact mapping_refuted. Qed.
-Print Assumptions C05_mapping_refuted.
+Proof. exact append_mapping_row. Qed.
+Print Assumptions C05_append_stores_values_in_column_order.
 
 (* ---------------------------------------------------------------------------------------------- *)
 (* histories                                                                                      *)
@@ -201,15 +190,15 @@ Proof. exact history_rows. Qed.
 Print Assumptions C05_history_rows.
 
 (* Frames created empty / from rows (IRows s rows, INames ns rows) or from dictionaries (IDicts ds), any
-   history of dict records: the accepted records are the records whose own append succeeds, in their
-   original order; the frame holds the initial rows followed by exactly their values in column order; on a
-   schema-bound frame a record is accepted exactly when it conforms (and can be sized), on a name-list frame
-   exactly when it can be sized; and every stored row conforms provided the rows supplied at creation did
-   (nothing to provide for a frame built from dictionaries or created empty).
-   Partial: dict entries only (F-C05-2); without that guard C05_history_rows and C05_append_atomic apply. *)
-Theorem C05_history_partial :
+   history of records (dicts or other mappings - the property's quantifier; entries that are not mappings are
+   covered by C05_history_rows, C05_append_atomic and C05_append_accepts_iff): the accepted records are the
+   records whose own append succeeds, in their original order; the frame holds the initial rows followed by
+   exactly their values in column order; on a schema-bound frame a record is accepted exactly when it conforms
+   (and can be sized), on a name-list frame exactly when it can be sized; and every stored row conforms provided
+   the rows supplied at creation did (nothing to provide for a frame built from dictionaries or created empty). *)
+Theorem C05_history :
   forall (i : init) (es : list entry),
-  forallb is_dict es = true ->
+  forallb is_mapping es = true ->
   let f0 := init_frame i in
   let f' := fst (run f0 es) in
   let acc := accepted es (snd (run f0 es)) in
@@ -225,7 +214,7 @@ Theorem C05_history_partial :
    | IDicts _ => True
    end -> Forall (row_conforms (frame_schema (fk f0))) (frows f')).
 Proof. exact history_init. Qed.
-Print Assumptions C05_history_partial.
+Print Assumptions C05_history.
 
 (* Why the size step must precede the store step (F-C05-1, fixed by 421aa6e): in the old order a raising
    append leaves the row behind, in the current order it does not. *)
@@ -255,14 +244,15 @@ Proof.
     split; vm_compute; reflexivity.
 Qed.
 
-(* a history on a row-built frame: accepted, rejected (wrong type), raising in the size step, accepted *)
+(* a history on a row-built frame: accepted, rejected (wrong type), raising in the size step, accepted
+   (the last one a mapping that is not a dict) *)
 Example C05_nonvacuous_history :
   let s := [mkcol 0%N (Some 6%N) true; mkcol 1%N None true] in
   let es := [mkent KDict [(1%N, pv 5%N); (0%N, pv 2%N)];
              mkent KDict [(0%N, pv 5%N); (1%N, pv 5%N)];
              mkent KDict [(0%N, pv 28%N); (1%N, VNone)];
-             mkent KDict [(0%N, VNone); (1%N, pv 14%N)]] in
-  forallb is_dict es = true /\
+             mkent KMapping [(0%N, VNone); (1%N, pv 14%N)]] in
+  forallb is_mapping es = true /\
   Forall (row_conforms s) [[pv 3%N; pv 4%N]] /\
   snd (run (init_frame (IRows s [[pv 3%N; pv 4%N]])) es) =
     [AOk; ARaise (AErrors [] [] [(0%N, pv 5%N, 6%N)]); ARaise (AExn TypeError); AOk] /\
